@@ -150,6 +150,100 @@ func genCycleModel(r *hx.Rand) (*fga.Model, *typesystem.TypeSystem) {
 	}
 }
 
+// genShapeModel builds the shapes the breaking-change detector talks about and the ones `ttu` /
+// `GetDirectEdgeFromNodeForUserType` distinguish: computed aliases (pure and inside unions) of directly
+// assignable relations, targets that accept several usersets of one type, tuple-to-usersets whose tupleset
+// has several parent types with different conditions, and exclusions / intersections around them.
+func genShapeModel(r *hx.Rand) (*fga.Model, *typesystem.TypeSystem) {
+	for try := 0; ; try++ {
+		m := &fga.Model{Types: []*fga.TypeDef{{Name: "user"}}}
+		if r.Chance(2, 3) {
+			m.Conds = append(m.Conds, &fga.CondDef{Name: "c1", Param: "x", Op: hx.Pick(r, []string{"lt", "ge"}), Const: 10})
+		}
+		cond := func() string {
+			if len(m.Conds) > 0 && r.Chance(1, 3) {
+				return "c1"
+			}
+			return ""
+		}
+		u := fga.Restr{Typ: "user"}
+		// group: member direct; owner = member (pure alias); admin = owner (alias chain) or a union with member
+		group := &fga.TypeDef{Name: "group", Rels: []*fga.RelDef{
+			{Name: "member", Rewrite: this(), Restrs: []fga.Restr{u}},
+			{Name: "owner", Rewrite: cu("member")},
+		}}
+		if r.Chance(1, 2) {
+			group.Rels = append(group.Rels, &fga.RelDef{Name: "admin", Rewrite: cu("owner")})
+		} else {
+			group.Rels = append(group.Rels, &fga.RelDef{Name: "admin", Rewrite: un(this(), cu("member")), Restrs: []fga.Restr{u}})
+		}
+		if r.Chance(1, 3) {
+			group.Rels[0].Restrs = append(group.Rels[0].Restrs, fga.Restr{Typ: "user", Wild: true, Cond: cond()})
+		}
+		// folder: viewer direct + from parent; several parent types with different conditions
+		fp := []fga.Restr{{Typ: "folder", Cond: cond()}}
+		folder := &fga.TypeDef{Name: "folder", Rels: []*fga.RelDef{
+			{Name: "parent", Rewrite: this(), Restrs: fp},
+			{Name: "member", Rewrite: this(), Restrs: []fga.Restr{u, {Typ: "group", Rel: hx.Pick(r, []string{"member", "owner", "admin"})}}},
+			{Name: "viewer", Rewrite: un(this(), cu("member"), ttu("parent", "viewer")), Restrs: []fga.Restr{u}},
+		}}
+		// doc: the target relations
+		dp := []fga.Restr{{Typ: "folder", Cond: cond()}, {Typ: "group", Cond: cond()}}
+		if r.Chance(1, 2) {
+			dp[1].Cond = "c1"
+			if len(m.Conds) == 0 {
+				dp[1].Cond = ""
+			}
+		}
+		if r.Chance(1, 2) {
+			dp[0], dp[1] = dp[1], dp[0]
+		}
+		var vr []fga.Restr
+		vr = append(vr, u)
+		for _, rel := range []string{"member", "owner", "admin"} {
+			if r.Chance(1, 2) {
+				vr = append(vr, fga.Restr{Typ: "group", Rel: rel, Cond: cond()})
+			}
+		}
+		if r.Chance(1, 3) {
+			vr = append(vr, fga.Restr{Typ: "user", Wild: true})
+		}
+		kids := []*fga.Rewrite{this()}
+		if r.Chance(1, 2) {
+			kids = append(kids, cu("editor"))
+		}
+		if r.Chance(2, 3) {
+			kids = append(kids, ttu("parent", "member"))
+		}
+		viewer := &fga.RelDef{Name: "viewer", Rewrite: un(kids...), Restrs: vr}
+		if len(kids) == 1 {
+			viewer.Rewrite = this()
+		}
+		doc := &fga.TypeDef{Name: "doc", Rels: []*fga.RelDef{
+			{Name: "parent", Rewrite: this(), Restrs: dp},
+			{Name: "editor", Rewrite: this(), Restrs: []fga.Restr{u, {Typ: "group", Rel: "member"}}},
+			{Name: "blocked", Rewrite: this(), Restrs: []fga.Restr{u, {Typ: "user", Wild: true}}},
+			viewer,
+		}}
+		switch r.Intn(4) {
+		case 0:
+			doc.Rels = append(doc.Rels, &fga.RelDef{Name: "owner", Rewrite: df(cu("viewer"), cu("blocked"))})
+		case 1:
+			doc.Rels = append(doc.Rels, &fga.RelDef{Name: "owner", Rewrite: in(cu("viewer"), cu("editor"))})
+		case 2:
+			doc.Rels = append(doc.Rels, &fga.RelDef{Name: "owner", Rewrite: cu("viewer")})
+		}
+		m.Types = append(m.Types, doc, folder, group)
+		ts, err := typesystem.NewAndValidate(context.Background(), m.Proto(fgarun.ModelID))
+		if err == nil {
+			return m, ts
+		}
+		if try > 200 {
+			panic("shape generator cannot produce a valid model: " + err.Error())
+		}
+	}
+}
+
 // crafted shapes that every run exercises (candidate findings found while modelling, the documented
 // breaking-change shapes, and the request-shape errors).
 func crafted() []string {
